@@ -181,8 +181,11 @@ def condense_dataset(
                     ) as hw:
         # Write all remaining scalar features to the file
         # (these are *all* scalar features in the case of .tdms data).
+        # (The "events" group does not exist yet if the input has no
+        # scalar features of its own, e.g. if they all come from basins.)
+        events = h5_cond.require_group("events")
         for feat in features:
-            if feat not in h5_cond["events"]:
+            if feat not in events:
                 hw.store_feature(feat=feat, data=ds[feat])
 
         # collect warnings log
